@@ -236,7 +236,7 @@ func c20(tier string) int {
 	cov := map[string]any{
 		"evaluations":         r.Evaluations + crashPoints,
 		"distinct_nontrivial": r.Nontrivial + crashPoints,
-		"rule":                "(1) transparency: node-kind-complete import-free corpus stored and loaded, structural AST/position/comment equality and identical declaration code from the real compile pipeline, plain and minified; (2) isolation: store under one build configuration, load under every configuration of the product {GOOS,GOARCH,GOROOT,GOPATH,Version} x 8 tag-list spellings: hit only for the same configuration; side-by-side storage; import-path pairs; 5x5 (buildTime, srcModTime) grid; tested-package table; (3) damage: EVERY truncation length, zero-filled power-loss tails and single-byte flips (3 masks, stride 3 quick / 1 thorough) of two stored entries: outcome must be a miss or a hit with identical contents; (4) crash points: SIGKILL injected with strace at every file/descriptor syscall of the unmodified Store (with and without a previous entry), then a fresh process loads",
+		"rule":                "(1) transparency: node-kind-complete import-free corpus stored and loaded, plus one file per comment position (21: package/import/func/type/field/const/var/local-declaration doc comments, trailing comments, floating comments at top level, inside bodies, inside function literals, at the end of the file) carrying the go:linkname directive there; identical declaration code and linkname table from the real compile pipeline (or the same rejection), plain and minified; (2) isolation: store under one build configuration, load under every configuration of the product {GOOS,GOARCH,GOROOT,GOPATH,Version} x 8 tag-list spellings: hit only for the same configuration; side-by-side storage; import-path pairs; 5x5 (buildTime, srcModTime) grid; tested-package table (tested paths that themselves end in _test); (3) damage: entries of 64 KiB / 1 MiB +-1 / 3 MiB decompressed size (compressible and incompressible): flips at 24 spread offsets and in each of the last 12 bytes (deflate end, CRC32, ISIZE), 13 truncations; EVERY truncation length, zero-filled power-loss tails and single-byte flips (3 masks, stride 3 quick / 1 thorough) of two stored entries: outcome must be a miss or a hit with identical contents; (4) crash points: SIGKILL injected with strace at every file/descriptor syscall of the unmodified Store (with and without a previous entry), then a fresh process loads",
 		"samples":             samples,
 		"damage_outcomes":     r.Counts,
 		"crash_points":        crashPoints,
